@@ -417,6 +417,51 @@ def check_icf_full_state(rep, mod):
 
 
 
+def check_eos_truth(rep, mod):
+    """end_of_stream is documented as "non-zero if this is the last input buffer": every place that consults it has to test it against zero.  A comparison with 1 treats the
+    value 2 as "not the end": the level-0 finish emits a sync flush instead of the trailer and the stream never reaches the end state."""
+    import asmdb, c19
+    from asmdb import is_mem, parse_mem
+    R = rep.rule('L-EOS-TRUTH', 'every comparison of stream->end_of_stream with a constant, in the C code (icmp on a value loaded from the field) and in the asm deflate kernels (cmp [reg + _end_of_stream], imm), '
+                 'compares with 0: the field is documented as non-zero = last buffer', floor=20, unit='tests of end_of_stream')
+    eo = c19.field_offsets('struct isal_zstream', ['end_of_stream'])['end_of_stream']
+    n = 0
+    for fn, f in sorted(mod.funcs.items()):
+        pidx = [k for k, (t, _) in enumerate(f.params) if 'struct.isal_zstream*' in t]
+        if not pidx:
+            continue
+        P = irrules.prov(mod, f)
+        for i in f.all_insns():
+            if i.op != 'icmp':
+                continue
+            for a, b in ((i.ops[0], i.ops[1]), (i.ops[1], i.ops[0])):
+                d = f.defs.get(irrules._strip(f, a))
+                if d is None or d.op != 'load' or P.atoms(d.ops[0]) != {('param', pidx[0], eo)} or not re.match(r'^-?\d+$', b):
+                    continue
+                n += 1
+                R.instance()
+                R.check(int(b) == 0, mod.where(f, i), '%s compares end_of_stream with %s: a caller that marks the last buffer with another non-zero value is not recognised here (the trailer is never written / the '
+                        'end state never reached)' % (fn, b), key='L-EOS-TRUTH|%s|%s' % (fn, i.line or i.block), sample='%s: end_of_stream tested against 0' % fn)
+    units = asmdb.units('default')
+    for un, u in sorted(units.items()):
+        for fn, f in sorted(u.funcs.items()):
+            if not re.match(r'^isal_deflate_(body|finish|icf_body_hash_hist|icf_finish_hash_hist)_0\d$', fn):
+                continue
+            for a in f.addrs:
+                i = u.insns[a]
+                if i.mn != 'cmp' or len(i.ops) != 2 or not is_mem(i.ops[0]) or not re.match(r'^(0x[0-9a-f]+|\d+)$', i.ops[1]):
+                    continue
+                pm = parse_mem(i.ops[0])
+                if not pm or pm['index'] or pm['disp'] != eo or pm['base'] in ('rsp', 'rbp'):
+                    continue
+                n += 1
+                R.instance()
+                R.check(int(i.ops[1], 0) == 0, '%s: %s' % (un, u.where(i, f)), '%s compares end_of_stream with %s' % (fn, i.ops[1]), key='L-EOS-TRUTH|%s|%x' % (fn, a - f.addrs[0]),
+                        sample='%s: cmp [stream + _end_of_stream], 0' % fn)
+    if n == 0:
+        raise AnalysisBroken('L-EOS-TRUTH: no test of end_of_stream found')
+
+
 def main(tier):
     rep = Report('C10', tier, level='other')
     rep.undecided = UNDECIDED
@@ -446,6 +491,7 @@ def main(tier):
     import progress
     rep.attempt(progress.check, rep, mod, 20)
     rep.attempt(check_icf_full_state, rep, mod)
+    rep.attempt(check_eos_truth, rep, mod)
     import siblings
     _names = ['total_in_start', 'block_next', 'block_end', 'dist_mask', 'hash_mask', 'state', 'bitbuf', 'crc', 'has_wrap_hdr', 'has_eob_hdr', 'has_eob', 'has_hist', 'has_level_buf_init', 'count', 'tmp_out_buff',
               'tmp_out_start', 'tmp_out_end', 'b_bytes_valid', 'b_bytes_processed', 'buffer', 'head']
